@@ -228,6 +228,43 @@ func selects(file string, fd *ast.FuncDecl) [][]string {
 	return out
 }
 
+// ---- fifo/mutex.go: Lock must be exactly one blocking send, Unlock exactly one receive ----
+
+func mutexFacts(repo string, b *strings.Builder) {
+	rel := "concurrency/fifo/mutex.go"
+	f := parse(repo, rel)
+	seen := map[string]bool{}
+	for _, fd := range funcs(f) {
+		name := fd.Name.Name
+		var evs []string
+		for _, st := range fd.Body.List {
+			src := render(st)
+			switch {
+			case name == "New" && regexp.MustCompile(`^return &Mutex\{ lock: make\(chan struct\{\}, 1\), \}$`).MatchString(src):
+				evs = append(evs, "make:cap1")
+			case regexp.MustCompile(`^m\.lock <- struct\{\}\{\}$`).MatchString(src):
+				evs = append(evs, "send:lock")
+			case regexp.MustCompile(`^<-m\.lock$`).MatchString(src):
+				evs = append(evs, "recv:lock")
+			default:
+				die("%s:%s: unknown statement %q (Lock must be one blocking send, Unlock one receive)", rel, name, src)
+			}
+		}
+		seen[name] = true
+		fmt.Fprintf(b, "def fifoMutex_%s : List String := %s\n", name, leanList(evs))
+	}
+	for _, w := range []string{"New", "Lock", "Unlock"} {
+		if !seen[w] {
+			die("%s: %s not found", rel, w)
+		}
+	}
+	var names []string
+	for _, fd := range funcs(f) {
+		names = append(names, fd.Name.Name)
+	}
+	fmt.Fprintf(b, "def fifoMutex_funcs : List String := %s\n\n", leanList(names))
+}
+
 func leanList(xs []string) string {
 	q := make([]string, len(xs))
 	for i, x := range xs {
@@ -270,6 +307,7 @@ func main() {
 		}
 		fmt.Fprintf(&b, "def %s_methods : List String := %s\n\n", prefix, leanList(names))
 	}
+	mutexFacts(*repo, &b)
 	emitMethods("fifoMap", "concurrency/fifo/map.go", []string{"Lock", "Unlock"})
 	emitMethods("cmapMutex", "concurrency/cmap/mutex.go", []string{"acquire", "Lock", "Unlock", "RLock", "RUnlock", "Delete", "DeleteUnlock", "DeleteRUnlock", "Clear", "ItemCount"})
 
